@@ -220,11 +220,12 @@ def normalise_c(text):
     return text
 
 
-def fresh_compile(job, hashseed, aslr_off, timeout=300):
+def fresh_compile(job, hashseed, aslr_off, timeout=300, pyopt=False):
     env = dict(os.environ)
     env["PYTHONHASHSEED"] = str(hashseed)
     env["PYTHONDONTWRITEBYTECODE"] = "1"
-    cmd = [sys.executable, os.path.join(HERE, "nmfu_child.py")]
+    # pyopt: run the interpreter with -O (asserts stripped, __debug__ false)
+    cmd = [sys.executable] + (["-O"] if pyopt else []) + [os.path.join(HERE, "nmfu_child.py")]
     if aslr_off and shutil.which("setarch"):
         cmd = [shutil.which("setarch"), "-R"] + cmd
     try:
@@ -295,21 +296,23 @@ def c20_unit(unit, plan, root, uidx, workdir, tree):
     envs = [{"name": "R0", "hashseed": 0, "aslr_off": True, "history": []}]
     for i in range(1, T["replicas"]):
         envs.append({"name": "R%d" % i, "hashseed": rng.randrange(1, 2 ** 31), "aslr_off": rng.random() < 0.25,
-                     "history": make_history(rng, pool, target, tree) if rng.random() < 0.85 else []})
+                     "history": make_history(rng, pool, target, tree) if rng.random() < 0.85 else [],
+                     "pyopt": rng.random() < 0.2})
     comps = []
     builds = []
     try:
         for e in envs:
             job = {"tree": tree, "history": e["history"], "target": target, "want_dfa": e["name"] == "R0"}
-            comp = fresh_compile(job, e["hashseed"], e["aslr_off"])
+            comp = fresh_compile(job, e["hashseed"], e["aslr_off"], pyopt=e.get("pyopt", False))
             comp["_argv"] = unit["argv"]
             comps.append(comp)
         res["verdict"] = comps[0]["verdict"]
         vs = [verdict_class(c["verdict"]) for c in comps]
-        descr = [{"name": e["name"], "hashseed": e["hashseed"], "aslr_off": e["aslr_off"],
+        descr = [{"name": e["name"], "hashseed": e["hashseed"], "aslr_off": e["aslr_off"], "pyopt": e.get("pyopt", False),
                   "history": [(s["k"], s.get("argv") or s.get("mode") or s.get("n")) for s in e["history"]]} for e in envs]
         ctx0 = {"label": unit["label"], "source": unit["source"], "argv": unit["argv"], "inputs": {}, "script": [],
-                "envs": [{"name": e["name"], "hashseed": e["hashseed"], "aslr_off": e["aslr_off"], "history": e["history"]} for e in envs]}
+                "envs": [{"name": e["name"], "hashseed": e["hashseed"], "aslr_off": e["aslr_off"], "history": e["history"],
+                          "pyopt": e.get("pyopt", False)} for e in envs]}
         res["stats"]["verdicts"] = vs[0]
         if len(set(vs)) > 1:
             f = oracles.V("L4V", "verdict-depends-on-environment-or-history", -1, 0, str(list(zip([d["name"] for d in descr], vs)))[:800])
@@ -467,7 +470,7 @@ def replay(prop, doc, tree, workdir):
                 job = {"tree": tree, "history": e["history"], "target": {"source": doc["source"], "argv": doc["argv"]}, "want_dfa": True}
                 reps = 1 if e["aslr_off"] else 3
                 for _ in range(reps):
-                    comp = fresh_compile(job, e["hashseed"], e["aslr_off"])
+                    comp = fresh_compile(job, e["hashseed"], e["aslr_off"], pyopt=e.get("pyopt", False))
                     comp["_argv"] = doc["argv"]
                     comps.append((e, comp))
             vs = {c["verdict"] for _, c in comps}
